@@ -173,7 +173,6 @@ SLICES = {
         (2, 2, 'NS', 'IF', 1),
         (2, 3, 'NS', 'IS', 3),
         (3, 2, 'NS', 'IS', 1),
-        (3, 3, 'N3', 'I3', 3),
         (3, 3, 'N3R', 'I3', 3),
     ],
     'thorough': [
